@@ -1,6 +1,7 @@
 package validator
 
 import (
+	"fmt"
 	"github.com/aml-org/amf-custom-validator/internal/types"
 	"github.com/piprate/json-gold/ld"
 )
@@ -15,7 +16,16 @@ func Normalize(json any) any {
 }
 
 // NormalizeOrError flattens the document; a document JSON-LD processing rejects is an error of the caller's input.
-func NormalizeOrError(json any) (any, error) {
+func NormalizeOrError(json any) (flattened any, err error) {
+	// The JSON-LD processor panics on some malformed documents (for instance an @id that is not a parseable
+	// IRI reference and has to be resolved against a base); callers of the library get an error instead
+	defer func() {
+		if r := recover(); r != nil {
+			flattened = nil
+			err = fmt.Errorf("JSON-LD processing failed: %v", r)
+		}
+	}()
+
 	proc := ld.NewJsonLdProcessor()
 	options := ld.NewJsonLdOptions("")
 	context := make(types.ObjectMap)
